@@ -2,7 +2,8 @@
     pair's presence; both directions of an undirected pair expose the same timeline; this also holds for
     every graph the library derives through add_interaction (time_slice, to_directed, to_undirected). *)
 From DynVerif Require Import Base Graph Derived Spec.
-From DynVerif.proofs Require Import CoreInv C01Facts C03Facts.
+From DynVerif Require Import Api Annotate IO.
+From DynVerif.proofs Require Import CoreInv C01Facts C03Facts QueryFacts ApiFacts DerivedFacts2 IOWF.
 
 (** [timeline_of g u v] is the list interactions()/in_/out_interactions() expose (oldest run first).
     [canon_chrono]: start <= end for each run, and end + 1 < next start (an absent instant in between). *)
@@ -37,6 +38,27 @@ Print Assumptions C03_derived_wf.
 Theorem C03_wf_canon : forall g u v, WF g -> canon_chrono (timeline_of g u v).
 Proof. intros g u v (h & HI). eapply timeline_canon; eauto. Qed.
 Print Assumptions C03_wf_canon.
+
+(** the readers: whatever rows / lines / node-link data they are fed, a graph they return satisfies every invariant
+    ([WFG] includes [WF]), so the timelines exposed by read_snapshots, read_interactions and node_link_graph results
+    are canonical too *)
+Theorem C03_readers_wf : 
+  (forall dir rows H, parse_snapshots dir rows = RdOk H -> WFG H) /\
+  (forall dir rows H, parse_interactions dir rows = RdOk H -> WFG H) /\
+  (forall d arg H, node_link_graph d arg = RdOk H -> WFG H) /\
+  (forall dir m d keys ls H, read_snap_lines m d keys (empty_graph dir true) ls = TxOk H -> WFG H).
+Proof.
+  split; [|split; [|split]].
+  - intros dir rows H E. eapply WFG_parse_snapshots; [apply WFG_empty|exact E].
+  - intros dir rows H E. eapply WFG_parse_interactions; [apply WFG_empty|exact E].
+  - intros d arg H E. eapply WFG_node_link_graph; eauto.
+  - intros dir m d keys ls H E. eapply WFG_read_snap_lines; [apply WFG_empty|exact E].
+Qed.
+Print Assumptions C03_readers_wf.
+
+Theorem C03_wfg_canon : forall g u v, WFG g -> canon_chrono (timeline_of g u v).
+Proof. intros g u v (Hw & _). apply C03_wf_canon. exact Hw. Qed.
+Print Assumptions C03_wfg_canon.
 
 Example C03_example :
   timeline_of (run_calls (G0 false) [mkCall 1 2 0 (Some 3); mkCall 2 1 2 (Some 6); mkCall 1 2 6 None; mkCall 1 2 9 (Some 11)]) 2 1
